@@ -103,8 +103,11 @@ func genScripted(r *Rng) (ops []sop, kind string, connectFails bool) {
 		n := 2 + r.Intn(59)
 		ops = append(ops, sop{Op: "dwplan", Err: "pipe", K: r.Intn(n)}, usend(n))
 		switch r.Intn(3) {
-		case 0:
-			ops = append(ops, usend(pickSize(r)), sop{Op: "uclose"})
+		case 0: // the rest stays queued while the upstream read buffer is reused by further reads
+			for i, k := 0, 1+r.Intn(3); i < k; i++ {
+				ops = append(ops, usend(pickSize(r)))
+			}
+			ops = append(ops, sop{Op: "uclose"})
 		case 1:
 			ops = append(ops, dread(pickSize(r), "eof"))
 		default:
@@ -174,7 +177,7 @@ func c01(args []string) int {
 		fmt.Println("env:", err)
 		return 2
 	}
-	run.Sum.Rule = "relay part: (a) scripted downstream socket (each Read of the REAL connection read loop returns a scripted result: chunk, chunk together with io.EOF, io.EOF alone, (0,nil), time-out with and without bytes, reset with and without bytes; writes towards it may time out or fail after k bytes) in front of the REAL tcp_proxy filter and a real loopback upstream that sends/closes on script; the model is run on the results the socket's Read calls really returned; compared: bytes written to both sockets, every OnData of the downstream filter chain and every close event in order, the upstream connection's close events. (b) real sockets through a real tcp_proxy listener (server.NewHandler): client->upstream, upstream->client, both directions at once, ping-pong; the closing peer closes right after its last write; plain, TLS 1.2 upstream and TLS 1.2 client (last record and close_notify in one segment => MOSN's TLS Read returns n>0 with io.EOF). Sizes 1..2000 and some 20k-140k chunks. Non-trivial: at least two chunks or both directions used; distinct by (kind, sizes)."
+	run.Sum.Rule = "relay part: (a) scripted downstream socket (each Read of the REAL connection read loop returns a scripted result: chunk, chunk together with io.EOF, io.EOF alone, (0,nil), time-out with and without bytes, reset with and without bytes; writes towards it may time out or fail after k bytes) in front of the REAL tcp_proxy filter and a real loopback upstream that sends/closes on script; the model is run on the results the socket's Read calls really returned; compared: bytes written to both sockets, every OnData of the downstream filter chain and every close event in order, the upstream connection's close events. (b) real sockets through a real tcp_proxy listener (server.NewHandler): client->upstream, upstream->client, both directions at once, ping-pong; the closing peer closes right after its last write; plain, TLS 1.2 upstream and TLS 1.2 client (last record and close_notify in one segment => MOSN's TLS Read returns n>0 with io.EOF). (c) 2-5 sessions through the same listener at the same time, each streaming both ways, closed by the client, the upstream or both at once: every session's bytes as if it were alone. The scripted cases share ONE filter factory and cycle MOSN's buffer pools (IoBuffers and byte slices of 1 B .. 100 KB around the size classes) before every step, also while bytes of a failed write are still queued. Sizes 1..2000 and some 20k-140k chunks. Non-trivial: at least two chunks or both directions used; distinct by (kind, sizes)."
 
 	// ---------------------------------------------------------------- (a) scripted
 	sh := run.NewShard(shardHeader, "relay_case", "relay_mismatches")
@@ -344,6 +347,27 @@ func c01(args []string) int {
 		}
 	}
 	sh.Close()
+
+	// ---------------------------------------------------------------- (c) several sessions at the same time
+	for g := 0; g < run.N(4, 60); g++ {
+		p := 2 + r.Intn(4)
+		ss, err := runParallel(e, r, p)
+		if err != nil {
+			fmt.Println("parallel sessions failed to run:", err)
+			return 2
+		}
+		for i, s := range ss {
+			run.Count(fmt.Sprintf("p|%d|%d|%s|%d|%d", g, i, s.Closer, s.CLen, s.ULen), true, "parallel:closer="+s.Closer)
+			rep := map[string]interface{}{"part": "relay-parallel", "group": g, "sessions_in_group": p, "session": i, "spec": s,
+				"upstream_got": len(s.uGot), "client_got": len(s.cGot)}
+			if s.Problem != "" {
+				run.Fail("relay:e2e:parallel:stalled", "one of several simultaneous sessions did not make progress: "+s.Problem, rep)
+			}
+			if !bytes.Equal(s.uGot, s.cSent) || !bytes.Equal(s.cGot, s.uSent) {
+				run.Fail("relay:e2e:parallel:stream-mismatch", fmt.Sprintf("session %d of %d simultaneous ones: client sent %d bytes, upstream got %d [..%s vs ..%s]; upstream sent %d, client got %d", i, p, len(s.cSent), len(s.uGot), clip(s.cSent), clip(s.uGot), len(s.uSent), len(s.cGot)), rep)
+			}
+		}
+	}
 
 	// ---------------------------------------------------------------- HTTP/1 request URI
 	run.Sum.Rule += " || url part: request targets generated from path segments (unreserved / sub-delims / escaped bytes incl. %2F %2e %00 %25, '', '.', '..'), '//' and trailing '/', optional query (incl. empty, '?', '=', '//' and '..' inside the query), '*', plus malformed extras (fragment, raw space, raw non-ASCII, invalid escapes; correspondence only). (1) hook level: the REAL fasthttp URI parser, injectCtxVarFromProtocolHeaders and buildUrlFromCtxVar, and buildUrlFromCtxVar on arbitrary (path, pathOriginal, query) triples incl. rewritten paths, compared with Model/UrlBuild.v; (2) end to end: raw client -> real MOSN HTTP/1 proxy listener -> raw recording upstream, forwarded request line compared byte for byte. Non-trivial: the target contains an escape, a query, '//' or '..'."
